@@ -33,7 +33,7 @@ CHECK_DEADLOCK FALSE
 
 POOL = ["synth_asign_block_0", "synth_asign_block_1", "synth_asign_block_2", "loop_region_0", "synth_exit_latch_block_0", "synth_head_block_0",
         "synth_exit_block_0", "synth_tail_block_0", "head_region_0", "branch_region_0", "tail_region_0", "synth_fill_block_0", "synth_return_block_0",
-        "synth_asign_block_3", "loop_region_1", "branch_region_1"]
+        "synth_asign_block_3", "loop_region_1", "branch_region_1", "ir_block_0", "ir_block_1", "ir_block_2"]
 
 
 def namespace_inputs(seed: int, count: int):
@@ -104,6 +104,7 @@ def main(argv):
             runs.append(("namespace", namespace_inputs(args.seed, 250 if quick else 1500)))
             # a client asks for a name of every kind (front-end block kinds included) before the pipeline and after every stage
             runs.append(("probe", [dict(x, probe_names=True) for x in rb.domain_inputs(args.tier, args.seed + 3, "XB", scale=0.15 if quick else 0.3)]))
+            runs.append(("probe-namespace", [dict(x, probe_names=True) for x in namespace_inputs(args.seed + 9, 150 if quick else 800)]))
             # the same kind of input, built around a generator that has already served another graph
             runs.append(("used-generator", [dict(x, usedgen=True) for x in namespace_inputs(args.seed + 5, 150 if quick else 800)]))
         nbeh = nev = 0
